@@ -348,13 +348,22 @@ def _releases_param_on_unwind(F, A, key, seen):
     for p in A.paths.get(key, []):
         if p.exit != "unw" or (p.origin or "std") not in ("user", "panic"):
             continue
+        minted = 0
+        released = 0
         for i, e in enumerate(p.events):
+            minted_before = minted
+            minted += vget(e["vec"], "inc") + vget(e["vec"], "init")
             if vget(e["vec"], "dec") <= 0 or not isinstance(e.get("bb"), int) or e["bb"] >= len(b["blocks"]):
                 continue
+            released += vget(e["vec"], "dec")
             tt = b["blocks"][e["bb"]]["term"]
             mine = False
             if tt["k"] == "drop":
                 mine = "deref" in tt["place"]["p"] and (bool(_c03.root_args(Bb, tt["place"]["l"]) & mparams) or tt["place"]["l"] in mparams)
+                if not mine and released > minted_before + vget(e["vec"], "inc") + vget(e["vec"], "init"):
+                    # a handle the function rebuilt from the lent one (`let _ = Arc::from_raw(&*x)`): it releases a reference this
+                    # function never minted - the lent handle's own
+                    mine = True
             elif tt["k"] == "call":
                 for a in tt["args"]:
                     pl = operand_place(a)
@@ -564,6 +573,26 @@ def rule_racy_assert(ctx, rep, rule="R-RACY-ASSERT", scope=None, strict=False):
                 if not c or "op" not in c:
                     continue
                 ka, kb = B.const_value(c["a"]), B.const_value(c["b"])
+                if ka is None and kb is None and strict:
+                    # two readings of the count compared with each other (`assert!(Arc::count(self) >= pinned)`): between the two
+                    # loads another owner may clone or drop, so no order between them is an invariant
+                    from . import atomics as _at, model as _md
+
+                    def _is_reading(op_):
+                        o_ = B.origin(op_)
+                        if o_.get("kind") != "call":
+                            return False
+                        r_ = o_["term"].get("resolved")
+                        ck_ = r_["def"] if isinstance(r_, dict) else o_["term"].get("callee")
+                        return (_at.atomic_class(o_["term"]) == _md.ATOMIC_LOAD and _at.receiver_is_count(F, B, o_["term"])) or _count_reader(F, A, ck_)
+
+                    if _is_reading(c["a"]) and _is_reading(c["b"]) and B.origin(c["a"]).get("bb") != B.origin(c["b"]).get("bb"):
+                        ik = "%s/assert-on-count:bb%d" % (key, br["bb"])
+                        if ik not in done:
+                            done.add(ik)
+                            n += 1
+                            rep.bad(rule, ik, path_report(F, b, p, "this assertion compares two separate readings of the count word with each other: another owner's clone or drop between the two loads falsifies any order between them, so the operation panics in a schedule in which the property says it succeeds"), F.loc(b, t["span"]), tag)
+                    continue
                 if (ka is None) == (kb is None):
                     continue
                 var, k = (c["a"], kb) if ka is None else (c["b"], ka)
